@@ -235,6 +235,9 @@ func CrashChild(caseFile, dir, logPath, mode string, kill uint64, torn bool) int
 				log.line(fmt.Sprintf("invoke %d", i))
 				r := a.apply(w.Ctx, o)
 				log.line(fmt.Sprintf("ack %d %s", i, strconv.Quote(r.Class)))
+				// the instant right after an acknowledgement is a crash point of its own: whatever
+				// the call handed to somebody else to finish must already be safe
+				simrt.Mutation("ack", "")
 			}
 		}
 		// the process ends without Close half of the time (a clean exit is a crash point too)
@@ -264,7 +267,7 @@ func worldAt(dir string, spec WorldSpec, seed uint64, fresh bool) *World {
 	}
 	w.Disk = &simos.Disk{}
 	simos.Install(w.Disk)
-	w.Badger = &simbadger.Faults{FailUpdateAt: map[uint64]bool{}}
+	w.Badger = &simbadger.Faults{FailUpdateAt: map[uint64]bool{}, FailCommitAt: map[uint64]bool{}}
 	simbadger.Install(w.Badger)
 	// identifiers must not repeat those of an earlier process on the same directory, and must be a
 	// function of the seed alone: a counter file next to the database counts the incarnations
@@ -296,11 +299,11 @@ type crashState struct {
 
 type verifyOut struct {
 	First, Second crashState
-	Acked         []int      `json:"acked"`
-	InFlight      int        `json:"inflight"` // op index or -1
+	Acked         []int          `json:"acked"`
+	InFlight      int            `json:"inflight"`          // op index or -1
 	Classes       map[int]string `json:"classes,omitempty"` // acknowledged op -> error class it returned
-	Viol          *Violation `json:"viol,omitempty"`
-	Mutations     uint64     `json:"mutations"`
+	Viol          *Violation     `json:"viol,omitempty"`
+	Mutations     uint64         `json:"mutations"`
 }
 
 func parseCrashLog(path string) (acked []int, classes map[int]string, inflight int, muts []string, done bool) {
@@ -936,6 +939,9 @@ func crashChildConc(c CrashCase, dir string, log *crashLog, kill uint64, torn bo
 		}
 		b, _ := json.Marshal(l)
 		log.line("op " + string(b))
+		if kind == "ack" {
+			simrt.Mutation("ack", "") // the instant right after an acknowledgement is a crash point
+		}
 	}
 	out, _ := concExec(cc, nil)
 	if out.Violation != nil || out.Infra != "" || out.Inconclusive != "" {
